@@ -202,6 +202,12 @@ def replay(f):
             return False, "no oracle"
         emitted = []
         tr.refresh.connect(lambda *a: emitted.append(a))
+        disabled = inp.get("disabled") or []
+        if disabled:
+            tr.disable_features(list(disabled))
+            rpk = [k for k in rpk if k not in disabled]
+        raw_n0 = {n: dict(d) for n, d in tr.graph.nodes(data=True)}
+        raw_e0 = {(u, v): dict(d) for u, v, d in tr.graph.edges(data=True)}
         S0 = snapshot(tr)
         try:
             act, info = run(tr, inp)
@@ -240,6 +246,19 @@ def replay(f):
                 return (not ok), why
             return None
 
+        if ob == "C10.disabled_feature_untouched_by_edit":
+            a = inp["args"]
+            named = (a.get("u"), a.get("v")) if inp["action"] in ("UserAddEdge", "UserDeleteEdge") else None
+            for n, d in raw_n0.items():
+                if n in g1:
+                    for k in disabled:
+                        if k != "iou" and not close(d.get(k), g1.nodes[n].get(k)):
+                            return True, detail + f" node {n}: disabled {k} changed {d.get(k)} -> {g1.nodes[n].get(k)}"
+            if "iou" in disabled:
+                for e, d in raw_e0.items():
+                    if e != named and g1.has_edge(*e) and not close(d.get("iou"), g1.edges[e].get("iou")):
+                        return True, detail + f" edge {e}: disabled iou changed {d.get('iou')} -> {g1.edges[e].get('iou')}"
+            return False, detail
         r = state_checks("")
         if r is not None:
             return r[0], detail + " " + r[1]
